@@ -12,7 +12,10 @@ Decided clauses:
               including on which side a boundary value falls (triaged residual differences listed)
   L2-GROUP    level 2 groups sources by a key and evaluates each group with the function that *is* that key
   L2-PAD      a shorter path is padded with its own last entry (edge padding), for position and orientation alike
-Not decided: the level-2 index arithmetic (tiling order, reshape, collection slices); numeric equality of the scalar and the
+  LAY  axis-layout typing (laydom.py / lay_rules.py): every batch row index of the level-2 plumbing is a mixed-radix number over
+       named index sets (group source G, path M, pixel P = sum of per-sensor Ps); tile/repeat/reshape/concatenate/split are typed
+       by the order of these sets; arrays paired row by row must agree, reshapes must re-split contiguous runs
+Not decided: offsets inside one index set (collection slices: see C05 SUM-*); numeric equality of the scalar and the
 vectorised elliptic-integral routines.
 """
 from __future__ import annotations
@@ -507,12 +510,14 @@ def twins(repo, res):
 
 
 def run(repo, res, tier):
-    res.rules = ["RUN-GROUP admission rule", "K1 batch-level branches", "K2 row-axis reductions", "TWIN scalar/vector branch agreement", "L2-GROUP", "L2-SCATTER", "L2-PAD", "K3 EXPAND-PAIR"]
+    res.rules = ["RUN-GROUP admission rule", "K1 batch-level branches", "K2 row-axis reductions", "TWIN scalar/vector branch agreement", "L2-GROUP", "L2-SCATTER", "L2-PAD", "K3 EXPAND-PAIR", "LAY axis-layout typing of the level-2 plumbing (assume/guarantee over get_src_dict, getBH_level1, getBH_level2)"]
     run_group(repo, res)
     k1_k2(repo, res)
     twins(repo, res)
     level2(repo, res)
     expand_pair(repo, res)
+    import lay_rules
+    lay_rules.run(res, "LAY")
     res.assumptions += ["NumPy elementwise operations, boolean masking and axis=-1/1 reductions do not couple rows",
                         "a batch-level `if np.any(M)` whose body only writes under M (or masks derived from M) is semantically a no-op for an empty selection"]
     return {}
